@@ -214,7 +214,8 @@ Fixpoint filter_by_date (chains : list chain) (now : Z)
 Record options := mkOptions {
   o_roots : list cert;         (* opts.Roots, built with AddCert in this order *)
   o_inters : list cert;        (* opts.Intermediates *)
-  o_now : Z;                   (* opts.CurrentTime *)
+  o_now : Z;                   (* opts.CurrentTime; a zero CurrentTime means time.Now() (fix 453d4ef): the
+                                  harness then passes the wall clock *)
   o_key_usages : list N;       (* opts.KeyUsages, canonical codes *)
   o_dns : bytes                (* opts.DNSName *)
 }.
@@ -338,11 +339,19 @@ Definition case := (list cert * sigmatrix * list query)%type.
 Definition check_case (c : case) : bool :=
   let '(univ, sig, qs) := c in forallb (check_query univ sig) qs.
 
-(* checkChainForKeyUsage alone: (certificates' EKU lists and unknown counts from leaf to root,
-   requested usages, observed) *)
-Definition kcase := (list (list N * nat) * list N * bool)%type.
+(* stream kcase: checkChainForKeyUsage alone (certificates' EKU lists and unknown counts from
+   leaf to root, requested usages, observed), and isValid alone (certType 1 leaf / 2 intermediate /
+   3 root, BasicConstraintsValid, IsCA, MaxPathLen, len(currentChain), observed error code) *)
 Definition eku_cert (e : list N * nat) : cert :=
   mkCert 0 0 0 0 None None 3 false false (-1) 0 true false (fst e) (snd e) 0 0 false false [] [] [].
+Inductive kcase :=
+| KEku (es : list (list N * nat)) (req : list N) (obs : bool)
+| KValid (t : N) (bc ca : bool) (mpl : Z) (n : nat) (obs : N).
 Definition check_kcase (k : kcase) : bool :=
-  let '(es, req, obs) := k in
-  Bool.eqb (check_chain_for_key_usage (map eku_cert es) req) obs.
+  match k with
+  | KEku es req obs => Bool.eqb (check_chain_for_key_usage (map eku_cert es) req) obs
+  | KValid t bc ca mpl n obs =>
+      let c := mkCert 0 0 0 0 None None 3 bc ca mpl 0 true false [] 0 0 0 false false [] [] [] in
+      let ty := if N.eqb t 2 then TIntermediate else if N.eqb t 3 then TRoot else TLeaf in
+      N.eqb (err_code (is_valid ty c n)) obs
+  end.
